@@ -50,6 +50,7 @@ type Cfg struct {
 	Threshold int           `json:"antispam_threshold"`
 	Exception bool          `json:"antispam_exception"`
 	MaintIvl  time.Duration `json:"antispam_interval"`
+	PipeIvl   time.Duration `json:"pipeline_maintenance_interval,omitempty"` // the pipeline's own maintenance interval (a different setting)
 	Readers   [][]Rec       `json:"readers"`
 }
 
@@ -102,6 +103,7 @@ func (h *H) Gen(rng *rand.Rand, tier, prop string) core.Cfg {
 	c.Threshold = core.Pick(rng, -1, -1, 0, 1, 3, 5, 20)
 	c.Exception = c.Threshold >= 0 && core.Chance(rng, 0.5)
 	c.MaintIvl = core.DurBetween(rng, 50*time.Millisecond, 2*time.Second)
+	c.PipeIvl = core.Pick(rng, 5*time.Second, time.Hour, 30*time.Millisecond)
 	if core.Chance(rng, 0.2) {
 		c.Sim.Faults["time.stall"] = 0.001
 		c.Sim.StallMax = 3 * time.Second
@@ -232,6 +234,7 @@ func (h *H) Run(cc core.Cfg, sim *simrt.Sim) *core.Outcome {
 	o := &core.Outcome{NonTrivial: map[string]bool{}, Probes: map[string]int{}}
 	out := &sinkOut{seen: map[int]string{}}
 	var all []*obs
+	var silenceViol []int
 	verdict := false
 	reason := sim.Run(func() {
 		seq++
@@ -241,8 +244,12 @@ func (h *H) Run(cc core.Cfg, sim *simrt.Sim) *core.Outcome {
 			exc = antispam.Exceptions{{RuleSet: matchrule.RuleSet{Name: "vip", Cond: matchrule.CondAnd, Rules: []matchrule.Rule{{Values: []string{"EXEMPT"}, Mode: matchrule.ModeContains}}}}}
 			exc.Prepare()
 		}
+		pipeIvl := cfg.PipeIvl
+		if pipeIvl == 0 {
+			pipeIvl = 5 * time.Second
+		}
 		settings := &pipeline.Settings{
-			Capacity: 16, MaintenanceInterval: 5 * time.Second, EventTimeout: time.Second,
+			Capacity: 16, MaintenanceInterval: pipeIvl, EventTimeout: time.Second,
 			Antispam:     pipeline.AntispamSettings{Threshold: cfg.Threshold, MaintenanceInterval: cfg.MaintIvl, Exceptions: exc},
 			AvgEventSize: 128, StreamField: "stream", Decoder: cfg.Decoder, Pool: pipeline.PoolTypeStd, MaxEventSize: cfg.MaxSize,
 			CutOffEventByLimit: cfg.CutOff, CutOffEventByLimitField: cfg.CutField,
@@ -272,6 +279,33 @@ func (h *H) Run(cc core.Cfg, sim *simrt.Sim) *core.Outcome {
 		}
 		wg.Wait()
 		simrt.Sleep(2 * time.Second)
+		if cfg.Threshold > 1 { // with threshold 1 the probe itself reaches the threshold
+			// every source has been silent for a while: "a banned source that falls silent is unbanned within the
+			// configured number of maintenance rounds plus one" - the rounds are the ANTISPAM interval's
+			simrt.Sleep(8 * cfg.MaintIvl)
+			srcs := map[int]bool{}
+			for _, ob := range all {
+				srcs[ob.rec.Source] = true
+			}
+			var ids []int
+			for s := range srcs {
+				ids = append(ids, s)
+			}
+			sort.Ints(ids)
+			for _, s := range ids {
+				probe := []byte(fmt.Sprintf(`{"id":%d}`, 900000+s))
+				if cfg.Decoder == "raw" {
+					probe = []byte("probe" + strconv.Itoa(s))
+				}
+				if cfg.MaxSize > 0 && len(probe) > cfg.MaxSize {
+					continue
+				}
+				if p.In(pipeline.SourceID(s), "src"+strconv.Itoa(s), pipeline.NewOffsets(int64(900000+s)*1000, nil), probe, false, nil) == 0 {
+					silenceViol = append(silenceViol, s)
+				}
+			}
+			simrt.Sleep(100 * time.Millisecond)
+		}
 		verdict = true
 		simrt.Stop("done")
 	})
@@ -279,6 +313,9 @@ func (h *H) Run(cc core.Cfg, sim *simrt.Sim) *core.Outcome {
 	if reason == "died" {
 		o.Violate("C20", "died", "pipeline died: %s", sim.Died())
 		return o
+	}
+	for _, s := range silenceViol {
+		o.Violate("C20", "still-banned-after-silence", "source %d is still refused after 2 s + 8 antispam maintenance intervals (%v each) of silence; pipeline maintenance interval %v", s, cfg.MaintIvl, cfg.PipeIvl)
 	}
 	if !verdict {
 		o.Inconclusive = "ended by " + reason
